@@ -1,11 +1,13 @@
 from vf.gen import Plan, Module
 from props.fam_model import MEMBERS, member_module, LOAD_PARAMS, LOAD_ARGS, load_slices
 from props.fam_l1 import l1_loader_module
+from props.fam_l3 import l3_module
 from props.fam_l2 import l2_module, l2_dump_module
 
 
 def build(tier, seed):
     mods = [l1_loader_module("C06", tier), l2_module("C06", tier), l2_dump_module("C06", tier)]
+    mods.append(l3_module("C06", tier))
 
     model_names = ['plain', 'rename', 'nested', 'nested2', 'forbid_nested', 'kwargs', 'rest_field_rename', 'saturator', 'as_list_forbid', 'list_gaps', 'list_in_dict', 'dict_in_list', 'pairs_map', 'req_two_crowns', 'req_three_levels'] if tier == "quick" else list(MEMBERS)
     for name in model_names:
